@@ -460,18 +460,21 @@ def first12 (num den : Nat) (k : Int) : Nat :=
 
 /-- models `value_abs.log10().floor()`.  libm's `log10` is not correctly rounded: within a few ulps
     of a power of ten its floor can go either way.  The model answers only
-    * for the doubles nearest to a power of ten (`RN(10^j)` — validated on all of them by every run), and
     * outside the zone where the first 12 significant digits are `999999999999` or `100000000000`
-      (there `⌊log10 v⌋` is the exact floor: the distance to an integer is ≥ 4e-12 ≫ 2 ulp);
+      (there `⌊log10 v⌋` is the exact floor: the distance to an integer is ≥ 4e-12 ≫ 2 ulp), and
+    * inside the zone for the doubles nearest to a power of ten (`RN(10^j)` ↦ `j`; validated on all
+      of them by every run; subnormal `RN(10^j)` are far from `10^j` and fall under the first rule);
     `none` = inside the zone (not modelled; oracle only). -/
 def log10Floor (v : Mag) : Option Int :=
   let k := ilog10 v.num v.den
   let rnPow (j : Int) : Option Mag := if j ≥ 0 then rn53 (pow10 j.toNat) 1 else rn53 1 (pow10 (-j).toNat)
-  if rnPow k = some v then some k
-  else if rnPow (k + 1) = some v then some (k + 1)
-  else
-    let n := first12 v.num v.den k
-    if n = pow10 12 - 1 ∨ n = pow10 11 then none else some k
+  let n := first12 v.num v.den k
+  if n = pow10 12 - 1 ∨ n = pow10 11 then
+    -- inside the zone only the doubles nearest to the power of ten are modelled
+    if rnPow k = some v then some k
+    else if rnPow (k + 1) = some v then some (k + 1)
+    else none
+  else some k
 
 inductive SciOut where
   | ok (m : Mag) (ep : List Char) (expNeg : Bool)
